@@ -328,6 +328,46 @@ func genPrior(r *kern.Rng, pkg string) scen.Prior {
 	return p
 }
 
+// genEarlyReach: a fixed-Huffman block in which a copy reaches before the
+// first byte ever produced, while the output is still (almost) empty: k
+// literals (0..3), a copy of length 3..10 whose distance is k+1..4 (the
+// smallest distances, the ones with a dedicated broadcast path in the
+// assembly loop), then enough literals that the copy is decoded by the
+// assembly loop (more than its input slack ahead) and an end-of-block.
+// Wave 19 (s19_C18): the planted dist_too_far fault sits in mid-stream, where
+// a small distance is never too far.
+func genEarlyReach(r *kern.Rng) scen.InputSpec {
+	var w ref.BitWriter
+	lit := func(v int) {
+		if v < 144 {
+			w.Code(0x30+v, 8)
+		} else {
+			w.Code(0x190+v-144, 9)
+		}
+	}
+	if r.Pct(25) { // an empty stored block first: nothing produced, bit position moved
+		w.Bits(0, 3)
+		w.Align()
+		w.Buf = append(w.Buf, 0, 0, 0xff, 0xff)
+	}
+	w.Bits(1|1<<1, 3)
+	k := r.Pick(0, 0, 0, 1, 2, 3)
+	for i := 0; i < k; i++ {
+		lit(r.Intn(256))
+	}
+	d := k + 1
+	if r.Pct(40) {
+		d = k + 1 + r.Intn(4-k)
+	}
+	w.Code(1+r.Intn(8), 7) // length symbols 257..264: lengths 3..10, no extra bits
+	w.Code(d-1, 5)         // distance symbols 0..3: distances 1..4, no extra bits
+	for i := r.Pick(0, 3, 20, 40, 200, 400, 3000); i > 0; i-- {
+		lit(r.Intn(256))
+	}
+	w.Code(0, 7)
+	return scen.InputSpec{Parts: []scen.StreamSpec{{Enc: "lit", Lit: w.Buf}}}
+}
+
 func (c03) Gen(r *kern.Rng, tier string, idx int) *Trace {
 	sc := &scen.RScen{Pkg: "flate", MaxOut: 32 << 20}
 	sc.In = genMalformedInput(r, 100000)
@@ -341,6 +381,9 @@ func (c03) Gen(r *kern.Rng, tier string, idx int) *Trace {
 	}
 	if r.Pct(20) {
 		sc.In = genHeaderProbe(r)
+	}
+	if r.Pct(4) {
+		sc.In = genEarlyReach(r)
 	}
 	tr := &Trace{Property: "C03", Family: "R-malformed", R: sc}
 	// truncation sweep: every byte of a small valid stream
@@ -1273,6 +1316,9 @@ func (c18) Gen(r *kern.Rng, tier string, idx int) *Trace {
 	sc.Reads = genReads(r)
 	if pkg == "flate" && r.Pct(15) {
 		sc.Prior = []scen.Prior{genPrior(r, "flate")}
+	}
+	if pkg == "flate" && r.Pct(4) {
+		sc.In = genEarlyReach(r)
 	}
 	tr := &Trace{Property: "C18", Family: "R-* cross-level", R: sc}
 	every := 41
